@@ -59,7 +59,9 @@ func donorEntries() map[string]entry {
 		for id := types.Kawpow; id <= types.Scrypt; id++ {
 			id := id
 			step(func() { types.AuxPowTxHash(id, b) })
-			step(func() { types.CalculateMerkleRoot(id, b, [][]byte{nil, {1}, bytes.Repeat([]byte{2}, 32), bytes.Repeat([]byte{3}, 33)}) })
+			step(func() {
+				types.CalculateMerkleRoot(id, b, [][]byte{nil, {1}, bytes.Repeat([]byte{2}, 32), bytes.Repeat([]byte{3}, 33)})
+			})
 		}
 		if sig == nil {
 			return 1
